@@ -1,5 +1,6 @@
 import CookModel.Lemmas.TextLaws
 import CookModel.Syntax.Blocks
+import CookModel.Lemmas.Blocks
 /-
   C05  No recipe content is silently dropped.
 
@@ -68,5 +69,57 @@ theorem C05_text_run_keeps_letters (alnum : Char → Bool) (hbs : alnum '\\' = f
   rw [buildText_text]
   simp only [List.mem_flatMap]
   exact ⟨t, ht, C05_letters_are_visible alnum hbs t hk (hesc t ht) c hc ha⟩
+
+/-- One step of the block splitter (`next_block`) loses only blank material: when it yields a block
+    `b` and leaves `rest`, the stream is `pre ++ b ++ post ++ rest` where `pre` (the skipped empty
+    lines) and `post` (the trimmed trailing newline tokens and the blank line that ended a multi-line
+    block) consist of whitespace, comment and newline tokens only. -/
+theorem C05_next_block_conserves (ts b rest : List Tok) (h : nextBlock ts = some (b, rest)) :
+    ∃ pre post, ts = pre ++ b ++ post ++ rest ∧
+      (∀ t ∈ pre, isEmptyTok t.kind = true) ∧ (∀ t ∈ post, isEmptyTok t.kind = true) := by
+  obtain ⟨pre, post, e, h1, h2, _, _⟩ := blocks_next_some ts b rest h
+  exact ⟨pre, post, by rw [e]; simp [List.append_assoc], h1, h2⟩
+
+/-- … and when it yields nothing (`None`: the parser stops), everything that is left is blank:
+    `next_block` never gives up in front of content. -/
+theorem C05_next_block_none_iff_blank (ts : List Tok) :
+    nextBlock ts = none ↔ ∀ t ∈ ts, isEmptyTok t.kind = true := blocks_next_none ts
+
+/-- The block splitter only ever drops blank material: for EVERY token stream, the concatenation of
+    the blocks handed to the block parsers is a subsequence of the stream (same tokens, same order),
+    and every token of the stream that is in no block is whitespace, a comment or a newline. -/
+theorem C05_splitter_conserves (ts : List Tok) :
+    (allBlocks (ts.length + 1) ts).flatten.Sublist ts ∧
+    ∀ t ∈ ts, t ∉ (allBlocks (ts.length + 1) ts).flatten → isEmptyTok t.kind = true := by
+  have h := blocks_all_drops (ts.length + 1) ts (by omega)
+  exact ⟨h.1, fun t ht hn => blocks_drops_mem h t ht hn⟩
+
+/-- The same, counted with multiplicity (two equal tokens cannot hide one another): the non-blank
+    tokens of the blocks are exactly the non-blank tokens of the stream, in the same order. -/
+theorem C05_splitter_keeps_all_nonblank (ts : List Tok) :
+    (allBlocks (ts.length + 1) ts).flatten.filter (fun t => !isEmptyTok t.kind) =
+    ts.filter (fun t => !isEmptyTok t.kind) :=
+  (blocks_all_drops (ts.length + 1) ts (by omega)).2
+
+/-- Instance for the streams `PullParser` really splits (the lexed body, at the front-matter
+    offset or 0): every non-blank token of the lexed input is in some block. -/
+theorem C05_lexed_tokens_reach_a_block (cs : CharSpec) (off : Nat) (s : List Char) (t : Tok)
+    (ht : t ∈ lexFrom cs off s) (hk : isEmptyTok t.kind = false) :
+    ∃ b ∈ allBlocks ((lexFrom cs off s).length + 1) (lexFrom cs off s), t ∈ b := by
+  have h := (C05_splitter_conserves (lexFrom cs off s)).2 t ht
+  false_or_by_contra
+  rename_i hc
+  have : t ∉ (allBlocks ((lexFrom cs off s).length + 1) (lexFrom cs off s)).flatten := by
+    intro hm
+    obtain ⟨b, hb, htb⟩ := List.mem_flatten.1 hm
+    exact hc ⟨b, hb, htb⟩
+  rw [h this] at hk; cases hk
+
+/-! non-vacuity: a stream with a leading blank line, a step, a blank line (dropped), a `>>` line
+    directly followed by a step line without newline at the end -/
+example : allBlocks 11 [⟨.ws, [' '], 0⟩, ⟨.newline, ['\n'], 1⟩, ⟨.word, ['a'], 2⟩, ⟨.newline, ['\n'], 3⟩,
+      ⟨.lineComment, "--c".toList, 4⟩, ⟨.newline, ['\n'], 7⟩,
+      ⟨.metaStart, ['>', '>'], 8⟩, ⟨.word, ['k'], 10⟩, ⟨.newline, ['\n'], 11⟩, ⟨.word, ['b'], 12⟩] =
+    [[⟨.word, ['a'], 2⟩], [⟨.metaStart, ['>', '>'], 8⟩, ⟨.word, ['k'], 10⟩], [⟨.word, ['b'], 12⟩]] := by decide
 
 end Cook
